@@ -45,7 +45,8 @@ RULE_FAULTS = (
        "undefined-macro-no-defs", "undefined-macro-file-defs", "undefined-macro-extra-file",
        "undefined-macro-in-mnemonic-file-defs", "undefined-macro-in-mnemonic-extra-file", "undefined-macro-in-operand-file-defs", "undefined-macro-in-operand-extra-file",
        "undefined-macro-key-times-file-defs", "undefined-macro-key-operands-extra-file",
-       "undefined-macro-in-last-macro-body", "undefined-macro-in-first-macro-body-extra-file"]
+       "undefined-macro-in-last-macro-body", "undefined-macro-in-first-macro-body-extra-file",
+       "macro-pattern-int", "macro-pattern-null", "macro-pattern-missing", "macro-name-missing", "macro-entry-scalar", "macro-pattern-int-extra-file"]
 )
 INPUT_FAULTS = ["input-file-" + f for f in FILE_FAULTS] + ["input-file-utf16"]
 BINARY_FAULTS = ["objdump-absent", "objdump-exit1", "objdump-exit3", "objdump-signal", "objdump-half-then-fail", "objdump-banner-then-fail", "sections-all-absent"]
@@ -162,6 +163,15 @@ def inject_rule_fault(fault, doc, pos, garbage):
             pat[k] = {"$and": [pat[k]], "times": t}
         else:
             pat[k] = _set_times(pat[k], t, where)
+    elif fault.startswith("macro-"):
+        # a used macro whose definition is malformed: the rule cannot be applied as written
+        bad = {"macro-pattern-int": {"name": "@bad_", "pattern": 5}, "macro-pattern-null": {"name": "@bad_", "pattern": None}, "macro-pattern-missing": {"name": "@bad_"},
+               "macro-name-missing": {"pattern": ["mov"]}, "macro-entry-scalar": "@bad_", "macro-pattern-int-extra-file": {"name": "@bad_", "pattern": 5}}[fault]
+        pat.insert(k, "@bad_")
+        if fault.endswith("extra-file"):
+            extra = [bad]
+        else:
+            doc["macros"] = [{"name": "@other_", "pattern": "other"}, bad]
     elif fault in ("undefined-macro-in-last-macro-body", "undefined-macro-in-first-macro-body-extra-file"):
         # the undefined reference is introduced by the expansion itself: it sits in the body of a macro the rule uses
         wrap = {"name": "@wrap_", "pattern": [{"$or": ["zzq", "@zz_undefined"]}] if pos % 2 else [{"mov": ["rax", "@zz_undefined"]}]}
